@@ -641,6 +641,9 @@ def gen_fzn(r, kinds_filter=None):
             else:
                 arr = [ic() for _ in range(n)]
                 arr_txt = "[%s]" % ",".join(arr)
+            involved = [i_, rr] + [t for t in arr if t in m.ints]
+            if len(set(involved)) != len(involved):
+                m.classes.add("fzn.element_repeated_var")
             m.cons.append(("constraint %s(%s, %s, %s);" % (k, i_, arr_txt, rr),
                            (lambda i_, arr, rr: lambda a: 1 <= a[i_] <= len(arr) and val(a, arr[a[i_] - 1]) == a[rr])(i_, arr, rr)))
         elif k == "pumpkin_all_different":
